@@ -9,6 +9,7 @@ from __future__ import annotations
 
 import ast
 
+from ..paths import structural_guards
 from ..core import AnalysisError, FuncInfo, call_name, walk_no_nested, norm
 from ..tables import (codec_calls, const_dispatch, if_chains, is_subtype,
                       isinstance_types, str_consts_in_calls)
@@ -393,6 +394,11 @@ def r06d(ctx):
                            "read back as the wrong Python type")
 
 
+def enclosing_for(n, stop):
+    from ..paths import enclosing_loops
+    return [x for x in enclosing_loops(n) if x is not stop]
+
+
 def r06e(ctx):
     """Bulk setters encode every input value on its own.
 
@@ -407,7 +413,7 @@ def r06e(ctx):
     from ..paths import cfg_of, node_of
     repo = ctx.repo
     ctx.rule("R06e", "bulk setters hand every input value to its own typed-value encoder call (no value skipped, merged or filtered)", floor=4)
-    ENC = {"Cell", "set_value", "set_cell_value"}
+    ENC = {"Cell", "set_value", "set_cell_value", "set_user_defined_metadata"}
 
     def derived(body_nodes, seeds):
         names = set(seeds)
@@ -435,7 +441,7 @@ def r06e(ctx):
 
     n_inst = 0
     for f in repo.all_funcs():
-        if f.file not in ("src/odfdo/row.py", "src/odfdo/table.py"):
+        if f.file not in ("src/odfdo/row.py", "src/odfdo/table.py", "src/odfdo/meta.py"):
             continue
         for n in walk_no_nested(f.node):
             if isinstance(n, ast.For):
@@ -446,6 +452,22 @@ def r06e(ctx):
                 n_inst += 1
                 cfg = cfg_of(f)
                 head = node_of(cfg, n)
+                # the loop over the caller's values is itself on every normal path: a return taken because the new values "equal" what is stored
+                # (dict/list equality is Python equality: True == Decimal('1')) writes nothing
+                fparams = {a.arg for a in f.all_params()} - {"self", "cls"}
+                if fparams & {x.id for x in ast.walk(n.iter) if isinstance(x, ast.Name)} and head is not None and not enclosing_for(n, f.node):
+                    byp = cfg.path_avoiding(cfg.entry, cfg.exit, [head], follow_exc=False)
+                    if byp is not None:
+                        last = [x for x in byp if x.stmt is not None][-1].stmt
+                        gs = structural_guards(last, stop=f.node)
+                        eqs = [t for t, _pol in gs if any(isinstance(x, ast.Compare) and any(isinstance(o, (ast.Eq, ast.NotEq)) for o in x.ops) and not any(
+                            isinstance(y, ast.Constant) for y in [x.left] + x.comparators) for x in ast.walk(t))]
+                        okb = not eqs
+                        ctx.instance("R06e", f"{f.file}:{f.ident}", f"the loop over {norm(n.iter, 30)} is not skipped on a comparison of values", ok=okb, nontrivial=True, line=n.lineno)
+                        if not okb:
+                            ctx.report("R06e", f, last, f"`{norm(last, 30)}` under `{norm(eqs[0], 50)}` skips the loop over {norm(n.iter, 30)}",
+                                       f"{f.ident} returns without encoding anything when `{norm(eqs[0], 50)}`: Python equality is not ODF identity (True == Decimal('1'), "
+                                       f"Decimal('1.50') == Decimal('1.5')), so values of another type or lexical form than the stored ones are never written")
                 via = [node_of(cfg, c) for c in encs]
                 via = [v for v in via if v is not None]
                 first = node_of(cfg, n.body[0])
@@ -476,6 +498,56 @@ def r06e(ctx):
                                f"{f.ident} drops or substitutes input values before they are encoded")
     if n_inst == 0:
         raise AnalysisError("R06e: no bulk setter loop found in row.py/table.py")
+
+
+def r06g(ctx):
+    """A stored value is absent only when it is None.
+
+    The typed readers fetch the raw text of an attribute or element and decode it by value type.  "" is a string value, "0" a number,
+    "false" a boolean: a truth test on the raw text (`if not text: return None`) turns a stored empty string into "no value" — the entry
+    reads back as None, and a UserDefined built from the document then writes no value at all.  Rule: in every type-dispatching reader
+    (a function that compares a value type with "boolean"/"float"/"string" …) a local bound to raw text (`.text`, `get_attribute*()`) is
+    tested with `is None` / `is not None` only, never for truth.
+    """
+    repo = ctx.repo
+    ctx.rule("R06g", "type-dispatching readers test raw text with `is None` only (an empty string is a value)", floor=3)
+    n = 0
+    for f in repo.all_funcs():
+        if f.kind in ("nested", "setter") or f.file.startswith("src/odfdo/scripts"):
+            continue
+        consts = {x.value for x in walk_no_nested(f.node) if isinstance(x, ast.Constant) and isinstance(x.value, str)}
+        if not {"boolean", "string"} <= consts or not any(isinstance(x, ast.Compare) for x in walk_no_nested(f.node)):
+            continue
+        raw = set()
+        for a in walk_no_nested(f.node):
+            if isinstance(a, ast.Assign) and len(a.targets) == 1 and isinstance(a.targets[0], ast.Name):
+                v = a.value
+                if isinstance(v, ast.Attribute) and v.attr in ("text", "tail") or isinstance(v, ast.Call) and call_name(v).startswith("get_attribute"):
+                    raw.add(a.targets[0].id)
+        raw -= {x for x in raw if "type" in x}  # the value type itself may default (`or "string"`)
+        if not raw:
+            continue
+        n += 1
+        bad = []
+        for st in walk_no_nested(f.node):
+            tests = [st.test] if isinstance(st, (ast.If, ast.While, ast.IfExp)) else []
+            for t in tests:
+                parts_ = [t]
+                while parts_:
+                    e = parts_.pop()
+                    if isinstance(e, ast.BoolOp):
+                        parts_ += e.values
+                    elif isinstance(e, ast.UnaryOp) and isinstance(e.op, ast.Not):
+                        parts_.append(e.operand)
+                    elif isinstance(e, ast.Name) and e.id in raw:
+                        bad.append((st, e.id))
+        ctx.instance("R06g", f"{f.file}:{f.ident}", f"raw text {sorted(raw)} tested with `is None` only", ok=not bad, nontrivial=True, line=f.node.lineno)
+        for st, nm in bad[:1]:
+            ctx.report("R06g", f, st, f"truth test on `{nm}`: {norm(st.test if hasattr(st, 'test') else st, 40)}",
+                       f"{f.ident} decides by the truth of the raw text `{nm}`: an empty string (a valid string value) or any other false-looking text is treated as \"no value\" and "
+                       f"read back as something else than what was stored")
+    if n < 3:
+        raise AnalysisError(f"R06g: only {n} type-dispatching reader(s) found")
 
 
 def r06f(ctx):
@@ -575,6 +647,7 @@ def run(ctx):
     r06d(ctx)
     r06e(ctx)
     r06f(ctx)
+    r06g(ctx)
     # the lexical forms are produced by the codecs: their exactness is a necessary condition of this property too (rules shared with C18)
     from .c18 import r18a, r18b, r18d
     r18a(ctx)
@@ -586,6 +659,14 @@ from ..selftest import Seed, unparse_seed  # noqa: E402
 
 _ET = "src/odfdo/element_typed.py"
 SEEDS = [
+    Seed("metadata reader treats empty text as no value", "fault", "src/odfdo/meta.py",
+         "        text = element.text\n        # Interpretation\n", "        text = element.text\n        if not text:\n            return (None, value_type, text)\n        # Interpretation\n", "R06g"),
+    Seed("metadata reader guards against a missing text node with is None", "neutral", "src/odfdo/meta.py",
+         "        text = element.text\n        # Interpretation\n", "        text = element.text\n        if text is None:\n            text = \"\"\n        # Interpretation\n"),
+    Seed("bulk metadata setter returns when the new dict equals the stored one", "fault", "src/odfdo/meta.py",
+         "        self.clear_user_defined_metadata()\n        for key, val in metadata.items():", "        if metadata == self.get_user_defined_metadata():\n            return\n        self.clear_user_defined_metadata()\n        for key, val in metadata.items():", "R06e"),
+    Seed("bulk metadata setter returns for an empty dict after clearing", "neutral", "src/odfdo/meta.py",
+         "        self.clear_user_defined_metadata()\n        for key, val in metadata.items():", "        self.clear_user_defined_metadata()\n        if not metadata:\n            return\n        for key, val in metadata.items():"),
     Seed("typed reader normalises the Decimal it returns", "fault", "src/odfdo/element_typed.py", "            value = Decimal(read_number)\n", "            value = Decimal(read_number).normalize()\n", "R06f"),
     Seed("Cell.value rounds to 12 places", "fault", "src/odfdo/cell.py", '            value_decimal = Decimal(str(self.get_attribute_string("office:value")))\n', '            value_decimal = round(Decimal(str(self.get_attribute_string("office:value"))), 12)\n', "R06f"),
     Seed("typed reader names the text first", "neutral", "src/odfdo/element_typed.py", "            value = Decimal(read_number)\n", "            text_number = str(read_number)\n            value = Decimal(text_number)\n"),
